@@ -57,6 +57,7 @@ structure Quiet (s : St) : Prop where
   addl    : ∀ n, s.additional n = none
   hides   : ∀ n, s.hideCount n = 0
   pend    : s.outcome = none
+  stale   : s.stale = []
 
 /-- readiness in a plain DAG: every predecessor has a stored result -/
 def readyP (P : Program) (s : St) (n : Node) : Bool := (P.g.preds n).all fun p => (s.res p).isSome
@@ -567,6 +568,21 @@ theorem nodeFinally_hideCount (P : Program) (s : St) (d : DagRef) (n : Node) (u 
     simp only [notify]
     exact this
 
+theorem nodeFinally_stale (P : Program) (s : St) (d : DagRef) (n : Node) (u : Bool) :
+    (nodeFinally P s d n u).stale = s.stale := by
+  have hna : ∀ (ks : List Key) (s : St), (notifyAll s ks).stale = s.stale := by
+    intro ks
+    induction ks with
+    | nil => intro s; rfl
+    | cons k ks ih => intro s; simp only [notifyAll, List.foldl_cons]; exact ih (notify s k)
+  unfold nodeFinally
+  simp only []
+  split
+  · rfl
+  · have := hna ((P.g.desc1 n).map Key.node) (setEvent s n)
+    simp only [notify]
+    exact this
+
 theorem nodeFinally_fields (P : Program) (s : St) (d : DagRef) (n : Node) (u : Bool) :
     (nodeFinally P s d n u).res = s.res ∧ (nodeFinally P s d n u).resHid = s.resHid ∧
     (nodeFinally P s d n u).proc = s.proc ∧ (nodeFinally P s d n u).procHid = s.procHid ∧
@@ -979,9 +995,11 @@ variable {val : Node → Option Val}
 
 theorem Quiet.of_eq {s s' : St} (h : Quiet s) (h1 : s'.resHid = s.resHid) (h2 : s'.procHid = s.procHid)
     (h3 : s'.opened = s.opened) (h4 : s'.sw = s.sw) (h5 : s'.additional = s.additional)
-    (h6 : s'.hideCount = s.hideCount := by rfl) (h7 : s'.outcome = s.outcome := by rfl) : Quiet s' :=
+    (h6 : s'.hideCount = s.hideCount := by rfl) (h7 : s'.outcome = s.outcome := by rfl)
+    (h8 : s'.stale = s.stale := by rfl) : Quiet s' :=
   ⟨fun n => by rw [h1]; exact h.resHid n, fun n => by rw [h2]; exact h.procHid n, fun n => by rw [h3]; exact h.opened n,
-   fun n => by rw [h4]; exact h.sw n, fun n => by rw [h5]; exact h.addl n, fun n => by rw [h6]; exact h.hides n, by rw [h7]; exact h.pend⟩
+   fun n => by rw [h4]; exact h.sw n, fun n => by rw [h5]; exact h.addl n, fun n => by rw [h6]; exact h.hides n, by rw [h7]; exact h.pend,
+   by rw [h8]; exact h.stale⟩
 
 /-- the situation in which a node task of a plain run takes a step: the invariant holds in `s`, the task is task
 `2 + i` of node `L[i]`; `s1` is `s` after the task has (possibly) marked its node processed -/
@@ -1104,7 +1122,7 @@ theorem node_step_finish {P : Program} {d : DagRef} (hp : PlainP P d) {s s1 : St
     rcases hs2 with ⟨_, h, _⟩ | ⟨_, v, h, _⟩ | ⟨_, h, _⟩
     · rw [h]; exact x.quiet1
     · rw [h]
-      refine ⟨fun n => ?_, x.quiet1.procHid, x.quiet1.opened, x.quiet1.sw, x.quiet1.addl, x.quiet1.hides, x.quiet1.pend⟩
+      refine ⟨fun n => ?_, x.quiet1.procHid, x.quiet1.opened, x.quiet1.sw, x.quiet1.addl, x.quiet1.hides, x.quiet1.pend, x.quiet1.stale⟩
       simp only [St.setRes, upd]
       split
       · rfl
@@ -1125,6 +1143,7 @@ theorem node_step_finish {P : Program} {d : DagRef} (hp : PlainP P d) {s s1 : St
     rw [hw] at hn1 hn2
     simp_all
   · rw [hs', hend]; exact hq2.of_eq hf2 hf4 hf5 hf6 hf7 (nodeFinally_hideCount P s2 d L[i] true).1 hf8
+      (nodeFinally_stale P s2 d L[i] true)
   · intro p v hv
     rw [hres'] at hv
     rcases hs2 with ⟨_, h, _⟩ | ⟨_, v0, h, hv0, _⟩ | ⟨_, h, _⟩
@@ -1212,7 +1231,7 @@ theorem node_post_plain {P : Program} {d : DagRef} (hp : PlainP P d) {s s1 : St}
     {tk : Task} (x : NodeStepCtx P d val s s1 L i c tk) (hr0 : s.res (L[i]'x.hi) = none) (obs : List Obs) (v : Val)
     (hv : v.isRecur = false ∧ v.isExc = false) (htr : Track P d val (val (L[i]'x.hi) = some v)) :
     PInv P d val (nodePost c s1 obs d (L[i]'x.hi) [] v).1 := by
-  simp only [nodePost, recSpawn, hv.1, hv.2, Bool.false_eq_true, if_false, storeIf, if_true,
+  simp only [nodePost, recSpawn, recSpawns, hv.1, hv.2, Bool.false_and, Bool.false_eq_true, if_false, storeIf, if_true,
     Bool.not_false, Bool.true_and, Bool.and_true, cbCall]
   cases hr2 : c.P.cbRaise .save (L[i]'x.hi) with
   | some e =>
@@ -1236,7 +1255,7 @@ theorem node_post_plain {P : Program} {d : DagRef} (hp : PlainP P d) {s s1 : St}
       apply pinv_node_step hp x.inv L x.len x.main x.nodes x.fresh i hi [] []
         { tk with frames := [.node d (L[i]'x.hi) false (.cbSave j)], st := .runnable .go }
       · simp only [St.setTask, St.setRes, map_wakeSet_nil, ← x.tasks1, x.ct]
-      · refine ⟨fun n => ?_, x.quiet1.procHid, x.quiet1.opened, x.quiet1.sw, x.quiet1.addl, x.quiet1.hides, x.quiet1.pend⟩
+      · refine ⟨fun n => ?_, x.quiet1.procHid, x.quiet1.opened, x.quiet1.sw, x.quiet1.addl, x.quiet1.hides, x.quiet1.pend, x.quiet1.stale⟩
         simp only [St.setTask, St.setRes, upd]
         split
         · rfl
@@ -1501,7 +1520,7 @@ theorem nodeKwargs_eq_kwFrom {P : Program} {d : DagRef} (hp : PlainP P d) (s : S
   simp [nodeKwargs, hb, hq.addl]
 
 theorem quiet_markProcessed {s : St} (h : Quiet s) (n : Node) : Quiet (s.markProcessed n) := by
-  refine ⟨h.resHid, fun m => ?_, h.opened, h.sw, h.addl, h.hides, h.pend⟩
+  refine ⟨h.resHid, fun m => ?_, h.opened, h.sw, h.addl, h.hides, h.pend, h.stale⟩
   simp only [St.markProcessed, upd]
   split
   · rfl
@@ -1958,7 +1977,7 @@ theorem pinv_step_main {P : Program} {d : DagRef} (hp : PlainP P d) {s : St} (h 
     have ht := topoOrd_of_validOrder hp h.quiet h2 c.ord (by rw [← hcP]; exact (horacle d rfl) ▸ (by rw [hcP]))
     subst h1
     have hvo : validOrder c.P s d c.ord = true := by rw [hcP]; exact horacle d rfl
-    simp only [dagInit, hp.notRec, Bool.false_eq_true, if_false, hvo, noteOrder_true, if_true]
+    simp only [dagInit, refresh_of_nil h.quiet.stale, hvo, noteOrder_true, if_true]
     split
     · next hnil =>
       -- the order cannot be empty: the output node is in it
@@ -2468,7 +2487,7 @@ theorem pinv_step {P : Program} {d : DagRef} (hp : PlainP P d) {s : St} (h : PIn
             simp [this] at hs
 
 theorem pinv_init {P : Program} {d : DagRef} : PInv P d val init := by
-  refine ⟨⟨fun _ => rfl, fun _ => rfl, fun _ => rfl, fun _ => rfl, fun _ => rfl, fun _ => rfl, rfl⟩, fun p v hv => by simp [init] at hv,
+  refine ⟨⟨fun _ => rfl, fun _ => rfl, fun _ => rfl, fun _ => rfl, fun _ => rfl, fun _ => rfl, rfl, rfl⟩, fun p v hv => by simp [init] at hv,
     ⟨_, rfl, .start false rfl⟩, Or.inl ⟨rfl, fun _ => ⟨rfl, rfl⟩⟩⟩
 
 end MLPE.Eng
